@@ -4,7 +4,7 @@
     trans_ndpt_to_vec_dist).  Weighted rows: [nth i (weighted wt fmat) []]; larger is better after weighting. *)
 From Coq Require Import Permutation.
 From PV Require Import Lib.Common Model.C19_Pareto Proofs.C19_Pareto Proofs.C19_Order Proofs.C19_Dist Proofs.C19_Norm
-  Gen.C19_Kernel Proofs.C19_Kernel Proofs.C19_Unit.
+  Gen.C19_Kernel Proofs.C19_Kernel Proofs.C19_Unit Model.C19_Tol Proofs.C19_Online.
 Local Open Scope Q_scope.
 
 (** the while loop ends within npt iterations, for every point set and weight vector (no fuel exhaustion) *)
@@ -296,6 +296,63 @@ Print Assumptions C19_kernel_filter.
 Theorem C19_kernel_pivot_comparison_strict : forall q p, (k_par_better q p = true <-> p < q) /\ k_par_better q q = false.
 Proof. intros q p. split; [apply k_par_better_strict | apply k_par_better_irrefl]. Qed.
 Print Assumptions C19_kernel_pivot_comparison_strict.
+
+(** * points ON the preference line
+
+    a min-max-scaled point that is a multiple of the line vector has squared residual exactly 0 (so the distance returned for a
+    knee point of a symmetric front under an equal preference, or for a point collinear with a preference vector that has zero
+    entries, is 0 whatever the magnitude of the preference vector), and no other point has *)
+Theorem C19_on_line_distance_zero : forall lin p t, length p = length lin -> ~ dotQ lin lin == 0 ->
+  Forall2 Qeq p (map (fun l => t * l) lin) -> residual2 lin (/ dotQ lin lin) p == 0.
+Proof. exact on_line_zero. Qed.
+Print Assumptions C19_on_line_distance_zero.
+
+Theorem C19_residual_zero_iff_multiple : forall lin p, length p = length lin -> ~ dotQ lin lin == 0 ->
+  (residual2 lin (/ dotQ lin lin) p == 0 <-> exists t, Forall2 Qeq p (map (fun l => t * l) lin)).
+Proof. exact residual2_zero_iff. Qed.
+Print Assumptions C19_residual_zero_iff_multiple.
+
+(** all three functions: the distance of point i is 0 iff its scaled point is a NON-NEGATIVE multiple of the preference vector *)
+Theorem C19_distance_zero_iff_on_preference_line : forall m mat sign pref i, rectm m mat -> length sign = m -> length pref = m ->
+  Forall (fun x => 0 <= x) pref -> Exists (fun x => 0 < x) pref -> (i < length mat)%nat ->
+  exists d2, trans_core mat sign pref = TFinite d2 /\ trans_sel_prob mat sign pref = TFinite d2 /\ trans_sel_fn mat sign pref = TFinite d2 /\
+    length d2 = length mat /\
+    (nth i d2 0 == 0 <-> exists t, 0 <= t /\ Forall2 Qeq (nth i (normalised mat sign) []) (map (fun l => t * l) pref)).
+Proof. exact zero_iff_on_line. Qed.
+Print Assumptions C19_distance_zero_iff_on_preference_line.
+
+(** the same about the three bodies assembled from the kernel expressions of the current source *)
+Theorem C19_kernel_distance_zero_iff_on_preference_line : forall m mat sign pref i, rectm m mat -> length sign = m -> length pref = m ->
+  Forall (fun x => 0 <= x) pref -> Exists (fun x => 0 < x) pref -> (i < length mat)%nat ->
+  forall r, In r [kern_core mat sign pref; kern_body K_prob mat sign pref; kern_body K_fn mat sign pref] ->
+  exists d2, r = TFinite d2 /\ length d2 = length mat /\
+    (nth i d2 0 == 0 <-> exists t, 0 <= t /\ Forall2 Qeq (nth i (normalised mat sign) []) (map (fun l => t * l) pref)).
+Proof. exact kern_zero_iff_on_line. Qed.
+Print Assumptions C19_kernel_distance_zero_iff_on_preference_line.
+
+(** the comparison used for non-dyadic preference vectors (regime T on the distance itself, |x - sqrt y| <= 2^-40): against a
+    model distance of exactly 0 it admits exactly the results in [0, 2^-40]; it implies the comparison on the squares *)
+Theorem C19_tolerance_at_zero : forall x y, y == 0 -> (dist_close x y = true <-> 0 <= x <= 1 # 1099511627776).
+Proof. exact dist_close_zero. Qed.
+Print Assumptions C19_tolerance_at_zero.
+
+Theorem C19_tolerance_strengthens : forall m o, tres_agree_t m o = true -> tres_agree m o = true.
+Proof. exact tres_agree_t_implies. Qed.
+Print Assumptions C19_tolerance_strengthens.
+
+(** non-vacuity: the knee point of a symmetric front under the preference (3/10, 3/10) and a point collinear with (0, 7/10, 7/10);
+    7.45e-9 (what a difference of squares leaves on the line) is rejected against 0, 1e-16 is accepted *)
+Example C19_on_line_hyps_satisfiable :
+  tres_eq (trans_core [[10; 30]; [20; 20]; [30; 10]] [-(1); -(1)] [3 # 10; 3 # 10]) (TFinite [1 # 2; 0; 1 # 2]) /\
+  Forall2 Qeq (nth 1%nat (normalised [[10; 30]; [20; 20]; [30; 10]] [-(1); -(1)]) []) (map (fun l => (5 # 3) * l) [3 # 10; 3 # 10]) /\
+  tres_eq (kern_body K_prob [[5; 1; 1]; [1; 5; 3]; [3; 3; 5]] [-(1); 1; 1] [0; 7 # 10; 7 # 10]) (TFinite [0; 9 # 8; 3 # 8]) /\
+  ~ dotQ [0; 7 # 10; 7 # 10] [0; 7 # 10; 7 # 10] == 0 /\
+  dist_close (745 # 100000000000) 0 = false /\ dist_close (1 # 10000000000000000) 0 = true /\
+  tres_agree_t (TFinite [1 # 2; 0]) (OVals [6369051672525773 # 9007199254740992; 1 # 10000000000000000]) = true.
+Proof.
+  split; [vm_compute; repeat constructor|]. split; [vm_compute; repeat constructor|]. split; [vm_compute; repeat constructor|].
+  split; [intro H; discriminate H|]. repeat split; vm_compute; reflexivity.
+Qed.
 
 (** non-vacuity: concrete values meeting the hypotheses *)
 Example C19_hyps_satisfiable :
